@@ -107,6 +107,7 @@ type monState struct {
 	curInTypes  []pb.EntryType
 	candByTerm  map[uint64]map[uint64]bool
 	commitClock map[uint64]int
+	writtenVote map[[2]uint64]uint64
 }
 
 func newMonState() *monState {
@@ -115,7 +116,7 @@ func newMonState() *monState {
 		campaigned: map[[2]uint64]int{}, confG: map[uint64]string{}, proposals: map[string]*propRec{}, reads: map[string]*readRec{},
 		ccCtx: map[string]bool{}, digest: sha256.New(), putByPayload: map[string]int{}, pendingGets: map[string]int{},
 		emptyByTerm: map[uint64]int{}, neutralByTerm: map[uint64]int{}, deliveredKV: map[uint64]string{}, putApplied: map[uint64]int{},
-		candByTerm: map[uint64]map[uint64]bool{}, commitClock: map[uint64]int{}}
+		candByTerm: map[uint64]map[uint64]bool{}, commitClock: map[uint64]int{}, writtenVote: map[[2]uint64]uint64{}}
 }
 
 func dhash(b []byte) uint64 {
@@ -247,7 +248,7 @@ func (w *World) onReady(n *node, rd *raft.Ready, hs *pb.HardState, ents []*pb.En
 			need = true
 		}
 		if need && !rd.MustSync {
-			w.Stats["mustsync-missing"]++
+			w.violate("C05", []string{"C07", "C02"}, "node %d: Ready carries %d entries and hard state %v (previously written term=%d vote=%d) but MustSync is false: the application is told that it need not fsync a new term, vote or entries", n.id, len(rd.Entries), rd.HardState, n.disk.lastWrittenTerm(n), n.disk.lastWrittenVote(n))
 		}
 	}
 	// C11 read states
